@@ -12,6 +12,8 @@ RULE = ('Liveness restated as bounded progress at quiescence.  cache mode: case 
         '(all destinations up, transports unpaused, all timers fired); receivers - including one connected while paused - '
         'must be resumed; non-trivial = execution in which receivers were paused at least once; distinct = interleavings / '
         'sequences')
+RULE_MORE = (' Also relay configurations without flow control (nobody may end up paused) and sub-second points in the cache workloads.')
+RULE = RULE + RULE_MORE
 EXHAUSTIVE = {'quick': False, 'thorough': False}
 EXHAUSTIVE_OVER = 'cache mode: all single-preemption schedules per workload; relay mode: all applicable sequences up to length L per prefix'
 ASSUMPTIONS = ['an unbounded "eventually" is out of reach for runtime monitoring: the property is checked at quiescence as its '
